@@ -170,6 +170,9 @@ func conf(s Setting) string {
 
 const defaultPath = "/p"
 
+// absPrefix starts the absolute-form request targets of the path channel.
+const absPrefix = "http://h"
+
 func ctypeHeader(cs Case) [][2]string {
 	switch cs.Chan {
 	case "urlenc":
@@ -250,7 +253,7 @@ func request(cs Case) scen.Req {
 	case "urlenc":
 		r.Body = encForm(cs.Style, cs.Items)
 	case "multipart":
-		r.Body = encMultipart(cs.Items)
+		r.Body = encMultipart(cs.Style, cs.Items)
 	case "json":
 		r.Body = encJSON(cs.Style, cs.Items)
 	case "xmlattr":
@@ -263,7 +266,11 @@ func request(cs Case) scen.Req {
 
 func wire(r scen.Req) string {
 	var sb strings.Builder
-	fmt.Fprintf(&sb, "%s %s", r.Method, q(r.URI))
+	m := r.Method
+	if m == "" {
+		m = "GET"
+	}
+	fmt.Fprintf(&sb, "%s %s", m, q(r.URI))
 	for _, h := range r.Headers {
 		fmt.Fprintf(&sb, " | %s: %s", q(h[0]), q(h[1]))
 	}
@@ -302,6 +309,7 @@ func populatingSite(site string) bool {
 type verdict struct {
 	sig, what string
 	signalled bool
+	why       string // which signal
 	outcome   string
 }
 
@@ -374,6 +382,10 @@ func run(c *runner.Ctx) {
 				c.Outcome(v.outcome)
 				if v.signalled {
 					c.Count("executions_with_error_signal", 1)
+					c.Count("signal_"+cs.Chan+"_"+v.why, 1)
+					if c.Get("signal_"+cs.Chan+"_"+v.why) == 1 {
+						c.Note("first signalled case of worker %d (%s/%s): %s", c.Worker, cs.Chan, v.why, wire(request(cs)))
+					}
 				}
 				if first && c.WantSample() && nontrivial && len(cs.Items) > 1 {
 					c.Sample(map[string]any{"case": cs, "wire": wire(request(cs)), "outcome": v.outcome})
